@@ -748,7 +748,7 @@ impl Scenario for C09 {
     fn runs(&self, tier: Tier) -> u64 {
         match tier {
             Tier::Quick => 1200,
-            Tier::Thorough => 30_000,
+            Tier::Thorough => 150_000,
         }
     }
     fn generate(&self, rng: &mut Rng, tier: Tier, _idx: u64) -> C09Plan {
